@@ -115,7 +115,7 @@ def generate(res):
         acc.append((v, sp))
         if "panic" in sp:
             continue
-        acc_items.append("(%s, %s)" % (cstr(v.strip(" \t\n\r")), "true" if "ok" in sp else "false"))
+        acc_items.append("(%s, %s)" % (cstr(v.strip(" \t\n\r")), "true" if not rejected_by_intent(sp) else "false"))
     body = HEADER
     body += "Definition lex_obs : list (list N * option (list (N * list N))) := " + clist(lex_items) + ".\n"
     body += "Definition accept_obs : list (list N * bool) := " + clist(acc_items) + ".\n"
@@ -126,10 +126,54 @@ def generate(res):
     return values, acc
 
 
+INTENT_ERRORS = ("in intent attribute value", "Illegal 'intent' syntax", "Error in intent value", "intent arg '")
+
+
+def rejected_by_intent(sp):
+    """the intent value itself was rejected (as opposed to a speech rule failing on the tree it made)"""
+    return "err" in sp and any(m in sp["err"] for m in INTENT_ERRORS)
+
+
+def applications(v):
+    """(name, number of arguments) of every name(args) in an intent value (properties after ':' dropped)"""
+    out, stack, name, i = [], [], "", 0
+    while i < len(v):
+        c = v[i]
+        if c == "(":
+            stack.append([name.split(":")[0].strip(), 1, i + 1 < len(v) and v[i + 1] == ")"])
+            name = ""
+        elif c == ")":
+            if stack:
+                n, k, empty = stack.pop()
+                out.append((n, 0 if empty else k))
+            name = ""
+        elif c == ",":
+            if stack:
+                stack[-1][1] += 1
+            name = ""
+        else:
+            name += c
+        i += 1
+    return out
+
+
+KF_ARITY = "known-concept-with-unexpected-number-of-arguments"
+_ARITIES = None
+
+
+def wrong_arity_of_known_concept(v):
+    global _ARITIES
+    if _ARITIES is None:
+        from . import c15
+        _ARITIES = c15.english_arities()
+    return [(n, k) for n, k in applications(v) if n in _ARITIES and k not in _ARITIES[n]]
+
+
 def api_oracle(res, values, acc):
     base = C.one_session([["set_mathml", PLAIN], ["get_spoken_text"], ["get_braille", ""]])["res"]
     plain_speech, plain_braille = base[1].get("ok"), base[2].get("ok")
-    err_of = {v: ("ok" in sp, sp) for v, sp in acc}
+    err_of = {v: (not rejected_by_intent(sp), sp) for v, sp in acc}
+    kf = {k["id"] for k in C.known_findings("C19")}
     ops = [["set_preference", "IntentErrorRecovery", "IgnoreIntent"]]
     vals = [v for v, _ in acc]
     for v in vals:
@@ -147,6 +191,8 @@ def api_oracle(res, values, acc):
         if "panic" in sp or "panic" in sm:
             res.violation("IntentErrorRecovery=IgnoreIntent: intent %r makes the library panic" % v, dict(rep, mode="IgnoreIntent", observed=[sm, sp]))
             nv += 1
+        elif "ok" not in sp and accepted and wrong_arity_of_known_concept(v) and KF_ARITY in kf:
+            res.known("%s: intent %r (%s)" % (KF_ARITY, v[:80], ", ".join("%s with %d" % x for x in wrong_arity_of_known_concept(v)[:2])))
         elif "ok" not in sp:
             res.violation("IntentErrorRecovery=IgnoreIntent: intent %r makes speech fail: %r" % (v, sp.get("err", "")[:120]), dict(rep, mode="IgnoreIntent", observed=sp))
             nv += 1
